@@ -211,7 +211,7 @@ def prepare(tier):
     return {'unit': 'libzwerg/dwit.cc (all_dies_iterator, cu_iterator), libzwerg/cache.cc (parent_cache::populate_unit)', 'functions': a.report['functions'] + b.report['functions']}
 
 
-FILES = ['dwz-partial', 'a1.out', 'nontrivial-types.o', 'twocus', 'haschildren_childless', 'dwz-partial2-1', 'enum.o']
+FILES = ['dwz-partial', 'a1.out', 'nontrivial-types.o', 'twocus', 'haschildren_childless', 'dwz-partial2-1', 'enum.o', 'nullptr.o', 'ptrmember_const_value.o']
 
 
 def replay(r):
